@@ -52,6 +52,17 @@ impl<P: Printer> InteractivePrinter<P> {
     if diffs.contents.is_empty() {
       return Ok(());
     }
+    #[cfg(ast_grep_verif)]
+    ast_grep_core::verif_hook::emit(
+      "write",
+      &format!(
+        "\"path\":{},\"n_diffs\":{},\"old_len\":{},\"stdin\":{}",
+        ast_grep_core::verif_hook::quote(&path.to_string_lossy()),
+        diffs.contents.len(),
+        diffs.old_source.len(),
+        self.from_stdin
+      ),
+    );
     let new_content = apply_rewrite(diffs);
     if self.from_stdin {
       println!("{new_content}");
